@@ -450,6 +450,10 @@ class NPShim(types.ModuleType):
             if isinstance(y, _np.ndarray) or isinstance(x, _np.ndarray):
                 return _map2(Angle, y, x)
             return Angle(y, x)
+        if isinstance(y, _np.ndarray) and y.dtype == object:
+            y = y.astype(float) if type(y) is _np.ndarray else _np.array(y.tolist(), dtype=float)
+        if isinstance(x, _np.ndarray) and x.dtype == object:
+            x = x.astype(float) if type(x) is _np.ndarray else _np.array(x.tolist(), dtype=float)
         return _np.arctan2(y, x)
 
     def floor(self, x):
